@@ -29,7 +29,7 @@ theorem mem_allCells (c : Cell) : c ∈ allCells := by
   simp only [allCells, List.mem_flatMap, List.mem_map]
   exact ⟨b, mem_allConfigs b, p, PathForm.mem_all p, rfl⟩
 
-theorem allCells_length : allCells.length = 2160 := by decide +kernel
+theorem allCells_length : allCells.length = 2592 := by decide +kernel
 
 /-- a Boolean check over the table of all cells is a statement about every cell -/
 theorem forall_of_allCells {p : Cell → Bool} (h : allCells.all p = true) (c : Cell) : p c = true :=
@@ -40,13 +40,13 @@ theorem cfg_idx_lt (c : Config) : c.idx < 432 := by
   cases e <;> cases f <;> cases k <;> cases o <;> cases n <;> decide
 
 /-- every cell has a row of the table -/
-theorem idx_lt (c : Cell) : c.idx < 2160 := by
+theorem idx_lt (c : Cell) : c.idx < 2592 := by
   have h := cfg_idx_lt c.toConfig
-  have hp : c.form.idx < 5 := by cases c.form <;> decide
+  have hp : c.form.idx < 6 := by cases c.form <;> decide
   unfold Cell.idx; omega
 
 /-- the row index is injective on the matrix: no two cells share a table row -/
-theorem idx_injective_table : (allCells.map Cell.idx) = List.range 2160 := by decide +kernel
+theorem idx_injective_table : (allCells.map Cell.idx) = List.range 2592 := by decide +kernel
 
 /-- row `c.idx` of the enumeration is the cell `c` itself -/
 theorem allCells_at_idx (c : Cell) : allCells[c.idx]? = some c := by
@@ -54,7 +54,7 @@ theorem allCells_at_idx (c : Cell) : allCells[c.idx]? = some c := by
   have h1 : (allCells.map Cell.idx)[i]? = some c.idx := by
     simp [List.getElem?_map, List.getElem?_eq_getElem hi, hc]
   rw [idx_injective_table] at h1
-  have hi' : i < 2160 := by rw [← allCells_length]; exact hi
+  have hi' : i < 2592 := by rw [← allCells_length]; exact hi
   rw [List.getElem?_range hi'] at h1
   have : i = c.idx := by simpa using h1
   subst this
@@ -62,7 +62,7 @@ theorem allCells_at_idx (c : Cell) : allCells[c.idx]? = some c := by
 
 /-- a single pass over the table next to the enumeration of the matrix is a statement about every cell looked up by
 its row index -/
-theorem lookup_of_zip_all {tbl : List Action} {f : Cell → Action} (hlen : tbl.length = 2160)
+theorem lookup_of_zip_all {tbl : List Action} {f : Cell → Action} (hlen : tbl.length = 2592)
     (h : (tbl.zip allCells).all (fun p => decide (p.1 = f p.2)) = true) (c : Cell) :
     tbl.getD c.idx Action.missing = f c := by
   have hi : c.idx < tbl.length := by rw [hlen]; exact idx_lt c
